@@ -62,7 +62,9 @@ const tdBound = 3 * time.Second
 // RunTeardown executes the scenario and records what was released within the bound.
 func (i *Inst) RunTeardown(s *TdScript, tw *TraceWriter, rng *rand.Rand) error {
 	p := i.P
-	// the baseline is taken from a quiet gateway: whatever earlier scripts left behind has finished releasing
+	// the baseline is taken from a quiet gateway: whatever earlier scripts left behind has finished releasing (every
+	// handler invocation the gateway entered has returned, and the gauges have stopped moving)
+	i.waitAllHandlersGone(10 * time.Second)
 	g0, err := i.quietGauges()
 	if err != nil {
 		return err
@@ -295,6 +297,29 @@ func (i *Inst) waitHandlersGone(cid string, mark int, d time.Duration) bool {
 	}
 }
 
+// waitAllHandlersGone waits until every handler invocation the gateway has entered so far has returned.
+func (i *Inst) waitAllHandlersGone(d time.Duration) bool {
+	deadline := time.Now().Add(d)
+	for {
+		in, out := 0, 0
+		for _, e := range i.P.Since(0) {
+			switch e.Pt {
+			case "gw.enter":
+				in++
+			case "gw.exit":
+				out++
+			}
+		}
+		if out >= in {
+			return true
+		}
+		if time.Now().After(deadline) {
+			return false
+		}
+		time.Sleep(10 * time.Millisecond)
+	}
+}
+
 // quietGauges reads the connection gauges until two readings 40 ms apart agree.
 func (i *Inst) quietGauges() (map[string]float64, error) {
 	g, err := i.gauges()
@@ -406,9 +431,13 @@ func (i *Inst) teardownPre(s *TdScript, tw *TraceWriter, pc *ProtoCtx, g0 map[st
 		}
 		time.Sleep(20 * time.Millisecond)
 	}
-	// the connection id must be usable again: nothing of the ended tunnel may linger in the pairing cache
+	// the connection id must be usable again: once the tunnel has ended (both of its requests have returned) nothing
+	// of it may linger in the pairing cache.  (A tunnel that has not ended by now is reported by the flags above; asking
+	// for its identifier again would only tell that it is still there.)
 	idReusable := true
-	if o2, _, _ := wsraw.DialLegacyOut(d); o2 != nil {
+	if !i.waitHandlersGone(cid, start, left()) {
+		// not ended within the bound
+	} else if o2, _, _ := wsraw.DialLegacyOut(d); o2 != nil {
 		m2 := p.Mark()
 		i2, _, _ := wsraw.DialLegacyIn(d)
 		if i2 != nil {
@@ -421,7 +450,7 @@ func (i *Inst) teardownPre(s *TdScript, tw *TraceWriter, pc *ProtoCtx, g0 map[st
 			idReusable = false
 		}
 		o2.Close()
-		time.Sleep(20 * time.Millisecond)
+		i.waitAllHandlersGone(5 * time.Second)
 	}
 	in.Close()
 	tw.Line(M{"ev": "teardown", "script": s.ID, "transport": s.Transport, "point": s.Point, "cause": s.Cause, "inflight": s.Inflight, "hadHost": false,
